@@ -137,111 +137,153 @@ Definition last_op (cur bidx : nat) (body : list opr) : nat :=
 Definition heads_after (st : state) (ev : event) (last : nat) : list nat :=
   if is_nil (e_ops ev) then s_heads st else [last].
 
-(** Expected heads and workspaces after the event; [None] = the model forbids the event. *)
-Definition expected (st : state) (ev : event) : option (list nat * list (N * wsst)) :=
+(** Result of a step: heads afterwards, the new state of the invoking workspace (if it
+    changes) and workspaces that come into existence. *)
+Definition res := (list nat * option wsst * list (N * wsst))%type.
+
+(** [jj workspace add]: the command's operations must be exactly two (chain checked by the
+    caller): cli/src/commands/workspace/add.rs commits "add workspace" outside
+    [finish_transaction] (the invoking workspace keeps its state [keep]); the second operation
+    is the initial checkout in the new workspace [nw]. *)
+Definition add_workspace (st : state) (allops : list opr) (bidx : nat) (body : list opr) (nw : N)
+  (keep : option wsst) : option res :=
+  match body with
+  | [_; _] =>
+      match lookupN nw (s_ws st), tree_of allops (bidx + 1) nw with
+      | None, Some t2 => Some ([bidx + 1], keep, [(nw, mk_ws t2 t2 (bidx + 1))])
+      | _, _ => None
+      end
+  | [] => Some (s_heads st, keep, [])
+  | _ => None
+  end.
+
+(** The invoking workspace is not in the loaded view (l.2098-2104): the snapshot is skipped,
+    but a transaction that gives the workspace a working-copy commit still checks it out
+    ([update_working_copy] with no old commit). *)
+Definition exp_absent (st : state) (ev : event) (h : nat) (ws : wsst) : option res :=
   let ops := s_ops st in
   let w := e_ws ev in
   let allops := ops ++ e_ops ev in
+  if chain_from h (length ops) (e_ops ev) && negb (N.eqb (e_status ev) 1) then
+    match e_kind ev with
+    | KWorkspaceAdd nw =>
+        match e_ops ev with
+        | [] => Some (s_heads st, None, [])
+        | _ => add_workspace st allops (length ops) (e_ops ev) nw None
+        end
+    | _ =>
+        Some (heads_after st ev (last_op h (length ops) (e_ops ev)),
+              Some (after_body_nosnap allops h (length ops) (e_ops ev) w ws
+                      (match lookupN w (e_ws_post ev) with
+                       | Some x => w_disk x | None => w_disk ws end)),
+              [])
+    end
+  else None.
+
+(** The invoking workspace is in the loaded view: freshness check, snapshot, command. *)
+Definition exp_present (st : state) (ev : event) (h : nat) (ws : wsst) : option res :=
+  let ops := s_ops st in
+  let w := e_ws ev in
+  let d := w_disk ws in
+  let allops := ops ++ e_ops ev in
+  match check_stale ops ws h w with
+  | FStale | FSibling =>
+      (* the command aborts before touching anything *)
+      if N.eqb (e_status ev) 1 && is_nil (e_ops ev) then Some ([h], None, []) else None
+  | fr =>
+      let L := match fr with FUpdated o => o | _ => h end in
+      if N.eqb (e_status ev) 1 then None else
+      match snapshot_phase ops L w d (e_ops ev) with
+      | None => None
+      | Some (cur, body, bidx) =>
+          if negb (chain_from cur bidx body) then None else
+          match e_kind ev with
+          | KWorkspaceAdd nw =>
+              match body with
+              | [] => Some (heads_after st ev cur, Some (mk_ws d d cur), [])
+              | _ => add_workspace st allops bidx body nw (Some (mk_ws d d cur))
+              end
+          | _ =>
+              Some (heads_after st ev (last_op cur bidx body),
+                    Some (after_body allops cur bidx body w d), [])
+          end
+      end
+  end.
+
+(** [jj workspace update-stale] ([recover_stale_working_copy_impl]). *)
+Definition exp_update_stale (st : state) (ev : event) (h : nat) (ws : wsst) : option res :=
+  let ops := s_ops st in
+  let w := e_ws ev in
+  let d := w_disk ws in
+  let allops := ops ++ e_ops ev in
+  let o := w_op ws in
+  (* snapshot on the working copy's own operation *)
+  match snapshot_phase ops o w d (e_ops ev) with
+  | None => None
+  | Some (cur, rest, idx) =>
+      (* divergent operations (head and the snapshot) are merged on reload *)
+      let need_merge := negb (Nat.eqb cur o) && negb (Nat.eqb o h) in
+      let top :=
+        if need_merge then
+          match rest with
+          | [M] => if seteqn (o_par M) [h; cur] then Some idx else None
+          | _ => None
+          end
+        else if is_nil rest then Some (if Nat.eqb cur o then h else cur) else None in
+      match top with
+      | None => None
+      | Some L' =>
+          match tree_of allops L' w with
+          | None =>
+              (* the workspace is not in the merged view: nothing to check out *)
+              Some ([L'], Some (mk_ws d d cur), [])
+          | Some desired =>
+              match check_stale allops (mk_ws d d cur) L' w with
+              | FFresh | FUpdated _ => Some ([L'], Some (mk_ws d d L'), [])
+              | FStale | FSibling => Some ([L'], Some (mk_ws desired desired L'), [])
+              end
+          end
+      end
+  end.
+
+Definition expected_res (st : state) (ev : event) : option res :=
+  let ops := s_ops st in
+  let w := e_ws ev in
   match s_heads st, lookupN w (s_ws st) with
   | [h], Some ws =>
-    let d := w_disk ws in
     match e_kind ev with
     | KEdit =>
         match lookupN w (e_ws_post ev) with
         | Some ws' =>
             if is_nil (e_ops ev) && N.eqb (w_tree ws') (w_tree ws) && Nat.eqb (w_op ws') (w_op ws)
-            then Some ([h], set_ws w ws' (s_ws st)) else None
+            then Some ([h], Some ws', []) else None
         | None => None
         end
     | KIgnoreWc =>
+        (* neither snapshot nor checkout *)
         if chain_from h (length ops) (e_ops ev)
-        then Some (heads_after st ev (last_op h (length ops) (e_ops ev)), s_ws st) else None
+        then Some (heads_after st ev (last_op h (length ops) (e_ops ev)), None, []) else None
     | KNormal | KWorkspaceAdd _ =>
         match tree_of ops h w with
-        | None =>
-            (* the workspace is not in the loaded view (l.2098-2104): the snapshot is skipped,
-               but a transaction that gives the workspace a working-copy commit still checks
-               it out ([update_working_copy] with no old commit) *)
-            if chain_from h (length ops) (e_ops ev) && negb (N.eqb (e_status ev) 1) then
-              match e_kind ev, e_ops ev with
-              | KWorkspaceAdd nw, [B1; B2] =>
-                  match lookupN nw (s_ws st), tree_of allops (length ops + 1) nw with
-                  | None, Some t2 =>
-                      Some ([length ops + 1], s_ws st ++ [(nw, mk_ws t2 t2 (length ops + 1))])
-                  | _, _ => None
-                  end
-              | KWorkspaceAdd _, _ :: _ => None
-              | _, _ =>
-                  Some (heads_after st ev (last_op h (length ops) (e_ops ev)),
-                        set_ws w (after_body_nosnap allops h (length ops) (e_ops ev) w ws
-                                    (match lookupN w (e_ws_post ev) with
-                                     | Some x => w_disk x | None => w_disk ws end)) (s_ws st))
-              end
-            else None
-        | Some _ =>
-          match check_stale ops ws h w with
-          | FStale | FSibling =>
-              if N.eqb (e_status ev) 1 && is_nil (e_ops ev) then Some ([h], s_ws st) else None
-          | fr =>
-              let L := match fr with FUpdated o => o | _ => h end in
-              if N.eqb (e_status ev) 1 then None else
-              match snapshot_phase ops L w d (e_ops ev) with
-              | None => None
-              | Some (cur, body, bidx) =>
-                  if negb (chain_from cur bidx body) then None else
-                  match e_kind ev, body with
-                  | KWorkspaceAdd nw, [B1; B2] =>
-                      (* cli/src/commands/workspace/add.rs: the first operation adds the new
-                         workspace (committed outside [finish_transaction], the invoking
-                         workspace keeps its snapshot state); the second is the initial
-                         checkout in the new workspace *)
-                      match lookupN nw (s_ws st), tree_of allops (bidx + 1) nw with
-                      | None, Some t2 =>
-                          Some ([bidx + 1],
-                                set_ws w (mk_ws d d cur) (s_ws st)
-                                ++ [(nw, mk_ws t2 t2 (bidx + 1))])
-                      | _, _ => None
-                      end
-                  | KWorkspaceAdd _, _ :: _ => None
-                  | _, _ =>
-                      Some (heads_after st ev (last_op cur bidx body),
-                            set_ws w (after_body allops cur bidx body w d) (s_ws st))
-                  end
-              end
-          end
+        | None => exp_absent st ev h ws
+        | Some _ => exp_present st ev h ws
         end
-    | KUpdateStale =>
-        let o := w_op ws in
-        match snapshot_phase ops o w d (e_ops ev) with
-        | None => None
-        | Some (cur, rest, idx) =>
-            (* divergent operations (head and the snapshot) are merged on reload *)
-            let need_merge := negb (Nat.eqb cur o) && negb (Nat.eqb o h) in
-            let top :=
-              if need_merge then
-                match rest with
-                | [M] => if seteqn (o_par M) [h; cur] then Some idx else None
-                | _ => None
-                end
-              else if is_nil rest then Some (if Nat.eqb cur o then h else cur) else None in
-            match top with
-            | None => None
-            | Some L' =>
-                match tree_of allops L' w with
-                | None =>
-                    (* the workspace is not in the merged view: nothing to check out *)
-                    Some ([L'], set_ws w (mk_ws d d cur) (s_ws st))
-                | Some desired =>
-                    match check_stale allops (mk_ws d d cur) L' w with
-                    | FFresh | FUpdated _ => Some ([L'], set_ws w (mk_ws d d L') (s_ws st))
-                    | FStale | FSibling =>
-                        Some ([L'], set_ws w (mk_ws desired desired L') (s_ws st))
-                    end
-                end
-            end
-        end
+    | KUpdateStale => exp_update_stale st ev h ws
     end
   | _, _ => None
+  end.
+
+Definition apply_res (st : state) (w : N) (r : res) : list nat * list (N * wsst) :=
+  match r with
+  | (hs, upd, extra) =>
+      (hs, match upd with Some x => set_ws w x (s_ws st) | None => s_ws st end ++ extra)
+  end.
+
+(** Expected heads and workspaces after the event; [None] = the model forbids the event. *)
+Definition expected (st : state) (ev : event) : option (list nat * list (N * wsst)) :=
+  match expected_res st ev with
+  | Some r => Some (apply_res st (e_ws ev) r)
+  | None => None
   end.
 
 Definition wsst_eqb (a b : wsst) : bool :=
